@@ -292,12 +292,23 @@ def st_module():
         if broken_value:
             b.add('NBSP_CONSTANT = "a\\xa0b"')
             b.add('"""doc of the constant"""')
-        return {'fmt': fmt, 'src': '\n'.join(b.lines) + '\n', 'problems': b.problems, 'broken_value': broken_value, 'offset': offset}
+        # a second root, listed (and written) first, whose classes override the documented methods without a docstring: the problems
+        # of the inherited docstrings are those of mod.py, whichever page is rendered first
+        classes = [ln.split()[1].split(':')[0].split('(')[0] for ln in b.lines if ln.startswith('class C')]
+        subfile = None
+        if classes and draw(st.integers(0, 2)) == 0:
+            subfile = 'from mod import %s\n' % ', '.join(classes) + ''.join('class S%s(%s):\n    def m(self, a):\n        pass\n' % (c_, c_) for c_ in classes)
+        return {'fmt': fmt, 'src': '\n'.join(b.lines) + '\n', 'problems': b.problems, 'broken_value': broken_value, 'offset': offset, 'subfile': subfile}
     return m()
 
 
-def run_module(src: str, fmt: str, W: bool) -> Tuple[Optional[int], List[Tuple[str, Any, str]], str]:
-    with pydoctor_run({'mod.py': src}, ['mod.py'], ['--docformat=' + fmt, '--project-name=p'] + (['-W'] if W else []), timeout=120) as r:
+def run_module(src: str, fmt: str, W: bool, subfile: Optional[str] = None) -> Tuple[Optional[int], List[Tuple[str, Any, str]], str]:
+    files = {'mod.py': src}
+    roots = ['mod.py']
+    if subfile:
+        files['a_sub.py'] = subfile
+        roots = ['a_sub.py', 'mod.py']
+    with pydoctor_run(files, roots, ['--docformat=' + fmt, '--project-name=p'] + (['-W'] if W else []), timeout=120) as r:
         if r.exc is not None or r.timeout:
             return None, [], (r.tb or 'timeout')[-500:]
         msgs = []
@@ -313,11 +324,11 @@ def check_module(case: Dict[str, Any]) -> Tuple[List[Tuple[str, str]], Dict[str,
     fmt, src, problems = case['fmt'], case['src'], case['problems']
     out: List[Tuple[str, str]] = []
     info: Dict[str, Any] = {'first_line_hits': 0, 'reports': 0}
-    code, msgs, err = run_module(src, fmt, False)
+    code, msgs, err = run_module(src, fmt, False, case.get('subfile'))
     if code is None:
         info['crashed'] = err
         return [], info
-    codeW, msgsW, err = run_module(src, fmt, True)
+    codeW, msgsW, err = run_module(src, fmt, True, case.get('subfile'))
     if codeW is None:
         info['crashed'] = err
         return [], info
@@ -373,7 +384,7 @@ def check_module(case: Dict[str, Any]) -> Tuple[List[Tuple[str, str]], Dict[str,
         out.append(('W-changes-messages', '%s\nmessages differ with -W' % desc))
     # metamorphic: shift by k
     k = case.get('shift', 3)
-    code2, msgs2, err = run_module('# shift\n' * k + src if not src.startswith(('"""', "'''", 'r"""', "r'''")) or True else src, fmt, False)
+    code2, msgs2, err = run_module('# shift\n' * k + src if not src.startswith(('"""', "'''", 'r"""', "r'''")) or True else src, fmt, False, case.get('subfile'))
     if code2 is not None:
         a = sorted((l + k if isinstance(l, int) else l, m) for _p, l, m in msgs)
         bb = sorted((l, m) for _p, l, m in msgs2)
